@@ -156,10 +156,12 @@ struct Cfg {
     field_rand: usize,  // random backgrounds for the per-field extremes (besides zeros, ones)
     windows: bool,      // exhaustive 16-bit windows
     field_lite: bool,   // fewer extreme values per field (quick tier)
+    win_df: Vec<u8>,    // restrict the window sweeps to shapes of these DFs (empty: all)
     wl_every: usize,    // every wl_every-th frame is also submitted at every wrong length
     from: u64,
     to: u64,
     hang_ms: u64,
+    emit01: bool,
     emit07: bool,
     emit08: bool,
     sample_every: u64,
@@ -178,10 +180,12 @@ fn load_cfg(path: &str) -> Cfg {
         field_rand: g("field_rand", 1) as usize,
         windows: v.get("windows").and_then(|x| x.as_bool()).unwrap_or(false),
         field_lite: v.get("field_lite").and_then(|x| x.as_bool()).unwrap_or(false),
+        win_df: v.get("win_df").and_then(|x| x.as_array()).map(|a| a.iter().filter_map(|d| d.as_u64()).map(|d| d as u8).collect()).unwrap_or_default(),
         wl_every: g("wl_every", 200) as usize,
         from: g("from", 0),
         to: g("to", u64::MAX),
         hang_ms: g("hang_ms", 10000),
+        emit01: v.get("emit01").and_then(|x| x.as_bool()).unwrap_or(true),
         emit07: v.get("emit07").and_then(|x| x.as_bool()).unwrap_or(true),
         emit08: v.get("emit08").and_then(|x| x.as_bool()).unwrap_or(true),
         sample_every: g("sample_every", 50000),
@@ -295,7 +299,7 @@ fn enumerate(cfg: &Cfg, shapes: &[Shape], f: &mut dyn FnMut(u64, &str, &str, &[u
             }
         }
         // 4. exhaustive 16-bit windows on a zero and an all-ones background
-        if cfg.windows {
+        if cfg.windows && (cfg.win_df.is_empty() || cfg.win_df.contains(&s.df)) {
             for &woff in &s.wins {
                 for bg in [Bg::Zeros, Bg::Ones] {
                     let mut base = background(s.nbytes, bg);
@@ -920,7 +924,9 @@ fn process(idx: u64, cls: &str, fill: &str, b: &[u8], cfg: &Cfg, sk: &mut Sinks,
         "fb_out": f1.out, "fb_out2": f2.out, "fb_h1": h31(&f1.text), "fb_h2": h31(&f2.text),
         "fb_used": f1.used, "fb_disp": fdisp, "fb_dbg": fdbg,
     });
-    emit(&mut sk.t01, &ev01);
+    if cfg.emit01 || probe_out.is_some() {
+        emit(&mut sk.t01, &ev01);
+    }
     sk.n01 += 1;
     *sk.outcomes.entry(format!("{}/{}", c1.out, f1.out)).or_insert(0) += 1;
     let mut rec: Vec<Value> = vec![];
@@ -960,7 +966,15 @@ fn process(idx: u64, cls: &str, fill: &str, b: &[u8], cfg: &Cfg, sk: &mut Sinks,
     let (ic_c, ic_t) = entry_chars(tree.as_ref().and_then(|t| get(t, "icao24")));
     let (tdf_c, tdf_t) = entry_chars(tree_t.as_ref().and_then(|t| get(t, "df")));
     let (tic_c, tic_t) = entry_chars(tree_t.as_ref().and_then(|t| get(t, "icao24")));
-    let (fr_c, fr_t) = entry_chars(tree_t.as_ref().and_then(|t| get(t, "frame")));
+    // the `frame` entry of the timed record, hex-decoded (either case): bytes, or why not
+    let (fr_b, fr_t): (Value, &str) = match tree_t.as_ref().and_then(|t| get(t, "frame")) {
+        Some(J::Str(fs)) => match hex::decode(fs) {
+            Ok(v) => (bytes_json(&v), "hex"),
+            Err(_) => (json!([]), "nothex"),
+        },
+        Some(_) => (json!([]), "notstring"),
+        None => (json!([]), "none"),
+    };
     // decode the hex of `frame` again and serialise the same kind of record
     let (mut re_out, mut re_ser, mut re_h, mut re_h_msg) = ("none", "none", 0i64, 0i64);
     let mut re_text = String::new();
@@ -998,7 +1012,7 @@ fn process(idx: u64, cls: &str, fill: &str, b: &[u8], cfg: &Cfg, sk: &mut Sinks,
         "dupkeys": lex.dup_keys.iter().chain(lex_t.dup_keys.iter()).take(4).cloned().collect::<Vec<String>>(),
         "df": df_c, "df_t": df_t, "icao": ic_c, "icao_t": ic_t,
         "tdf": tdf_c, "tdf_t": tdf_t, "ticao": tic_c, "ticao_t": tic_t,
-        "frame": fr_c, "frame_t": fr_t,
+        "frame_b": fr_b, "frame_t": fr_t,
         "re_out": re_out, "re_ser": re_ser, "h_t": if ser_t == "ok" { h31(&jst) } else { -1 }, "re_h": re_h,
         "h_m": if ser == "ok" { h31(&js) } else { -1 }, "re_h_m": re_h_msg,
     });
@@ -1163,8 +1177,8 @@ fn main() {
             let dir = std::env::temp_dir().join(format!("c01probe{}", std::process::id()));
             std::fs::create_dir_all(&dir).unwrap();
             let out = dir.to_str().unwrap().to_string();
-            let cfg = Cfg { shapes: String::new(), out: out.clone(), seed: 0, k_random: 0, field_rand: 0, windows: false, field_lite: false, wl_every: 0,
-                            from: 0, to: 0, hang_ms: 0, emit07: true, emit08: true, sample_every: 1 };
+            let cfg = Cfg { shapes: String::new(), out: out.clone(), seed: 0, k_random: 0, field_rand: 0, windows: false, field_lite: false, win_df: vec![], wl_every: 0,
+                            from: 0, to: 0, hang_ms: 0, emit01: true, emit07: true, emit08: true, sample_every: 1 };
             let mut sk = new_sinks(&out);
             for (i, h) in args[1..].iter().enumerate() {
                 let b = hex::decode(h).expect("hex");
